@@ -2,7 +2,10 @@
 import json
 import os
 import random
+import re
+import shutil
 import time
+from concurrent.futures import ThreadPoolExecutor
 
 import vlib
 from vlib import log
@@ -22,7 +25,7 @@ def _tier(tier):
             cover_r2=(120, 60),
             sims=[("PartialSig_n10_sim.cfg", 10, 1, 40, 30), ("PartialSig_n13_sim.cfg", 13, 1, 30, 36),
                   ("PartialSig_r3_sim.cfg", 7, 3, 40, 24)],
-            random_runs=120, full_every=40, attacks_n7=False)
+            record_runs=152, record_shards=4, full_every=40, attacks_n7=False)
     return dict(
         mc=["PartialSig_n4.cfg", "PartialSig_n7.cfg", "PartialSig_n7_thorough.cfg"],
         mc_r2={"perroot": "PartialSig_r2.cfg", "code": "PartialSig_r2_code.cfg"},
@@ -30,7 +33,7 @@ def _tier(tier):
         cover_r2=(None, 3000),
         sims=[("PartialSig_n7_thorough.cfg", 7, 1, 3000, 24), ("PartialSig_n10_sim.cfg", 10, 1, 3000, 30),
               ("PartialSig_n13_sim.cfg", 13, 1, 3000, 36), ("PartialSig_r3_sim.cfg", 7, 3, 2000, 24)],
-        random_runs=4000, full_every=25, attacks_n7=True)
+        record_runs=3000, record_shards=8, full_every=25, attacks_n7=True)
 
 
 # (cfg, n, r, removed guard / named deviation)
@@ -102,13 +105,280 @@ def _with_algo(cfg, algo):
     return {cfg: txt}
 
 
+# ----------------------------------------------------------------------------------------
+# implementation -> specification: recorded executions validated by spec/PartialSigTrace.tla
+# ----------------------------------------------------------------------------------------
+TRACE_MODULE = "PartialSigTrace"
+TRACE_CFG = "PartialSigTrace.cfg"
+# invariants of PartialSigTrace that state C05 on what the beacon node saw -> signature of the violation
+PROPERTY_INVARIANTS = {"TSubmittedValid": "invalid-submission", "TAtMostOnce": "duplicate-submission",
+                       "TNotPrevented": "submission-prevented"}
+_re_trace_file = re.compile(r'trace_n(\d+)_r(\d+)\.ndjson$')
+
+
+def _trace_cfg(n, r, algo):
+    txt = open(os.path.join(vlib.SPEC, TRACE_CFG)).read()
+    txt, c1 = re.subn(r'^(\s*)N = \d+', r'\g<1>N = %d' % n, txt, flags=re.M)
+    txt, c2 = re.subn(r'^(\s*)R = \d+', r'\g<1>R = %d' % r, txt, flags=re.M)
+    txt, c3 = re.subn(r'Algo = "\w+"', 'Algo = "%s"' % algo, txt)
+    if (c1, c2, c3) != (1, 1, 1):
+        raise vlib.MachineryError("cannot instantiate %s for N=%d R=%d Algo=%s" % (TRACE_CFG, n, r, algo))
+    return txt
+
+
+def _validate_lines(lines, n, r, algo, name):
+    """One TLC run of PartialSigTrace over the given events.
+    -> dict(status = accepted | violation | rejected, line = 1-based line of the event that broke it, inv, tlc,
+            unexplained = 1-based lines of the events taken by the TUnexplained step)"""
+    content = "\n".join(lines) + "\n"
+    res = None
+    for _ in range(3):
+        # short traces: the JVM start dominates - C1 only (the option rides on vlib.tlc's heap argument, which is
+        # pasted into JAVA_TOOL_OPTIONS after -Xmx)
+        res = vlib.tlc(TRACE_MODULE, TRACE_CFG, name=name, workers=1, timeout=1800, depth_first=True,
+                       heap="3g -XX:TieredStopAtLevel=1" if len(lines) < 4000 else "3g",
+                       files={"trace.ndjson": content, TRACE_CFG: _trace_cfg(n, r, algo)})
+        if res.violation or res.error or res.depth or res.distinct:
+            break
+        log("[C05] trace validation %s ended without a result after %.0fs (killed?) - repeating" % (name, res.wall))
+    out = {"tlc": res, "status": "accepted", "line": None, "inv": None,
+           "unexplained": sorted(set(int(x) for x in re.findall(r'<<"UNEXPLAINED", (\d+)>>', res.out)))}
+    if res.violation:
+        last = res.trace[-1] if res.trace else {}
+        nxt = vlib.tlaval.plain(last.get("l")) if "l" in last else None
+        if res.violation_kind != "invariant" or not isinstance(nxt, int):
+            raise vlib.MachineryError("trace validation %s: unexpected TLC result %s\n%s" % (name, res.violation, res.out[-2000:]))
+        out.update(status="violation", inv=res.violation, line=nxt - 1)
+        return out
+    post = "TraceAccepted" in res.out and ("is false" in res.out or "violated" in res.out)
+    if res.error and not post:
+        raise vlib.MachineryError("TLC error during trace validation %s: %s" % (name, res.error))
+    consumed = max(0, res.depth - 1)
+    if not post and consumed == len(lines):
+        return out
+    if not res.depth:
+        raise vlib.MachineryError("trace validation %s produced no statistics:\n%s" % (name, res.out[-2000:]))
+    out.update(status="rejected", line=consumed + 1)
+    return out
+
+
+def _execution_bounds(lines, line):
+    """[a, b): the execution (Reset ... before the next Reset) that contains the 1-based line."""
+    i = min(max(line - 1, 0), len(lines) - 1)
+    a = i
+    while a > 0 and '"event":"Reset"' not in lines[a]:
+        a -= 1
+    b = i + 1
+    while b < len(lines) and '"event":"Reset"' not in lines[b]:
+        b += 1
+    return a, b
+
+
+def _validate_file(path, n, r, algo, max_cuts=6):
+    """Validate one recorded file. Events the specification cannot explain are divergences (the execution is followed
+    further by its observations only). An execution on which a property invariant fails, or which TLC cannot read,
+    is reported and cut out, and the rest is validated again.
+    -> dict(events, executions, accepted_executions, wall, generated, findings=[...])"""
+    lines = [x for x in open(path).read().split("\n") if x.strip()]
+    total = len(lines)
+    nexec = sum(1 for x in lines if '"event":"Reset"' in x)
+    findings, wall, generated, cuts = [], 0.0, 0, 0
+    flagged = set()   # executions with a finding
+    tag = "pstrace-n%d-r%d" % (n, r)
+
+    def finding(status, inv, line, upto):
+        a, b = _execution_bounds(lines, line)
+        ex = json.loads(lines[a]).get("exec")
+        if (status, ex) not in flagged:
+            flagged.add((status, ex))
+            findings.append({"status": status, "inv": inv, "n": n, "r": r, "file": os.path.basename(path),
+                             "event": lines[line - 1], "slice": lines[a:(line if upto else b)], "exec": ex})
+        return a, b
+
+    while lines:
+        v = _validate_lines(lines, n, r, algo, tag)
+        wall += v["tlc"].wall
+        generated += v["tlc"].generated
+        for ln in v["unexplained"]:
+            if 1 <= ln <= len(lines):
+                finding("unexplained", None, ln, False)
+        if v["status"] == "accepted":
+            break
+        a, b = finding(v["status"], v["inv"], min(v["line"], len(lines)), True)
+        lines = lines[:a] + lines[b:]
+        cuts += 1
+        if cuts >= max_cuts and lines:
+            findings.append({"status": "unvalidated", "inv": None, "n": n, "r": r, "file": os.path.basename(path),
+                             "event": "%d more events not validated after %d cut executions" % (len(lines), cuts), "slice": [], "exec": None})
+            break
+    return {"events": total, "executions": nexec, "accepted_executions": nexec - len(set(ex for _, ex in flagged)),
+            "wall": wall, "generated": generated, "findings": findings, "n": n, "r": r}
+
+
+def _judge(findings, verdict, cov):
+    """Property invariant broken on a recorded state -> verdict (known-findings filter applies); everything else the
+    specification cannot explain -> divergence."""
+    for f in findings:
+        if f["status"] == "violation" and f["inv"] in PROPERTY_INVARIANTS:
+            sig = PROPERTY_INVARIANTS[f["inv"]]
+            name = "trace-%s-%s.ndjson" % (sig, re.sub(r'[^A-Za-z0-9]+', "_", str(f["exec"])))
+            rp = vlib.save_replay(PROP, name, "\n".join(f["slice"]) + "\n")
+            verdict.violation(sig, "recorded execution %s (N=%d, %d roots) breaks invariant %s of PartialSigTrace at event %s" %
+                              (f["exec"], f["n"], f["r"], f["inv"], f["event"]), rp)
+            cov["trace_property_violations"] += 1
+        else:
+            why = {"unexplained": "no step of PartialSig explains the event", "rejected": "TLC cannot read the event"}.get(f["status"], f["status"])
+            log("[C05] recorded execution %s (%s) NOT explained by PartialSigTrace: %s at event %s" % (f["exec"], f["file"], why, f["event"]))
+            cov["trace_divergences"].append({"file": f["file"], "exec": f["exec"], "why": why, "event": f["event"][:400]})
+
+
+def _run_record(binp, wd, seed, runs, shards, mode_args=None):
+    """Run the driver's record mode in `shards` processes and concatenate the per-(N,R) trace files (every execution
+    starts with a Reset event). -> (merged result, {(n, r): path})"""
+    tdir = os.path.join(wd, "traces")
+    shutil.rmtree(tdir, ignore_errors=True)
+    os.makedirs(tdir)
+    jobs = []
+    for k in range(shards):
+        nk = runs // shards + (1 if k < runs % shards else 0)
+        if nk == 0:
+            continue
+        sd, so = os.path.join(tdir, "shard%d" % k), os.path.join(wd, "record_result_%d.json" % k)
+        args = mode_args or ["-mode", "record", "-seed", str(seed * 1000 + k), "-runs", str(nk)]
+        jobs.append((args + ["-tracedir", sd, "-out", so], sd, so))
+    with ThreadPoolExecutor(max(1, len(jobs))) as ex:
+        list(ex.map(lambda j: vlib.run_driver(binp, j[0], timeout=6000), jobs))
+    merged, files = None, {}
+    for _, sd, so in jobs:
+        r = json.load(open(so))
+        if merged is None:
+            merged = r
+        else:
+            for k in ("behaviours", "steps", "nontrivial"):
+                merged[k] += r[k]
+            for k in ("violations", "divergences", "notes", "samples"):
+                merged[k] = (merged.get(k) or []) + (r.get(k) or [])
+            for k, v in r["counters"].items():
+                merged["counters"][k] = merged["counters"].get(k, 0) + v
+        for fn in sorted(os.listdir(sd)):
+            m = _re_trace_file.search(fn)
+            if not m:
+                continue
+            key = (int(m.group(1)), int(m.group(2)))
+            dst = os.path.join(tdir, fn)
+            with open(dst, "a") as out:
+                out.write(open(os.path.join(sd, fn)).read())
+            files[key] = dst
+    return merged, files
+
+
+def _record_and_validate(binp, wd, seed, runs, shards, algo, verdict, mode_args=None, selftest=True, label=None):
+    t0 = time.time()
+    res, files = _run_record(binp, wd, seed, runs, shards, mode_args)
+    _collect(res, verdict, label or "record:seed=%d,runs=%d,shards=%d" % (seed, runs, shards))
+    t1 = time.time()
+    cov = {"executions": res["behaviours"], "events": 0, "files": [], "trace_divergences": [], "trace_property_violations": 0,
+           "accepted_executions": 0, "driver_wall_s": round(t1 - t0, 1),
+           "alphabet": {k[4:]: v for k, v in sorted(res["counters"].items()) if k.startswith("rec_")}}
+    keys = sorted(files)
+    with ThreadPoolExecutor(6) as ex:
+        futs = [ex.submit(_validate_file, files[k], k[0], k[1], algo) for k in keys]
+        st = ex.submit(_binding_selftest, files, algo, wd) if selftest else None
+        outs = [f.result() for f in futs]
+        cov["binding_selftest"] = st.result() if st else "not run"
+    transitions = 0
+    for o in outs:
+        _judge(o["findings"], verdict, cov)
+        cov["events"] += o["events"]
+        cov["accepted_executions"] += o["accepted_executions"]
+        cov["files"].append({"n": o["n"], "roots": o["r"], "events": o["events"], "executions": o["executions"],
+                             "accepted_executions": o["accepted_executions"], "tlc_wall_s": round(o["wall"], 1)})
+        transitions += o["generated"]
+    cov["validation_wall_s"] = round(time.time() - t1, 1)
+    log("[C05] recorded %d executions / %d events on the real runners (%.0fs); PartialSigTrace accepted %d executions, "
+        "%d divergences, %d property violations on recorded states (%.0fs); self-test: %s" %
+        (cov["executions"], cov["events"], cov["driver_wall_s"], cov["accepted_executions"], len(cov["trace_divergences"]),
+         cov["trace_property_violations"], cov["validation_wall_s"], cov["binding_selftest"]))
+    sample = None
+    if keys:
+        sample = open(files[keys[0]]).read().split("\n")[:8]
+    return {"result": res, "cov": cov, "transitions": transitions, "sample": sample}
+
+
+def _binding_selftest(files, algo, wd):
+    """The binding is real: corrupt one recorded sender class / one submission flag / drop one event of a recorded
+    trace and require TLC to reject it (the submission flag: by the property invariant TSubmittedValid)."""
+    pick = None
+    for key in sorted(files):
+        if key[1] == 1:
+            pick = key
+            break
+    if pick is None:
+        return "skipped (no single-root trace)"
+    n, r = pick
+    lines = [x for x in open(files[pick]).read().split("\n") if x.strip()][:200]
+    evs = [json.loads(x) for x in lines]
+    i_cls = i_sub = i_drop = None
+    for i, e in enumerate(evs):
+        if e["event"] != "Recv" or i + 1 >= len(evs) or evs[i + 1]["event"] != "Recv":
+            continue
+        stored = e["cls"] == "ok" and e["err"] == "none" and not e["fin"] and e["kinds"] == ["good"] * r and \
+            evs[i - 1]["event"] == "Recv" and sum(e["nsh"]) == sum(evs[i - 1]["nsh"]) + r
+        if stored and i_cls is None:
+            i_cls = i
+        elif stored and i_drop is None:
+            i_drop = i
+        if e["subs"] and i_sub is None:
+            i_sub = i
+    if None in (i_cls, i_sub, i_drop):
+        return "skipped (no suitable events)"
+    out = []
+
+    def variant(name, mut):
+        ls = list(lines)
+        mut(ls)
+        return _validate_lines(ls, n, r, algo, "pstrace-selftest-" + name)
+
+    def m_cls(ls):
+        e = dict(evs[i_cls])
+        e["kinds"] = ["garbage"] + e["kinds"][1:]
+        ls[i_cls] = json.dumps(e, separators=(",", ":"))
+
+    def m_sub(ls):
+        e = dict(evs[i_sub])
+        e["subs"] = [dict(e["subs"][0], ok=False)] + e["subs"][1:]
+        ls[i_sub] = json.dumps(e, separators=(",", ":"))
+
+    def m_drop(ls):
+        del ls[i_drop]
+
+    with ThreadPoolExecutor(4) as ex:
+        fb, fc, fs, fd = (ex.submit(variant, nm, mu) for nm, mu in
+                          (("unchanged", lambda ls: None), ("class", m_cls), ("subflag", m_sub), ("drop", m_drop)))
+        base, vc, vs, vd = fb.result(), fc.result(), fs.result(), fd.result()
+    if base["status"] != "accepted" or base["unexplained"]:
+        return "skipped (the unmodified prefix is not accepted: see the divergences)"
+    if (i_cls + 1) not in vc["unexplained"]:
+        raise vlib.MachineryError("binding self-test failed: a corrupted sender class (line %d) was explained (%s, unexplained lines %s)" %
+                                  (i_cls + 1, vc["status"], vc["unexplained"]))
+    out.append("sender class of line %d corrupted: no step explains line %d" % (i_cls + 1, i_cls + 1))
+    if vs["status"] != "violation" or vs["inv"] != "TSubmittedValid" or vs["line"] != i_sub + 1:
+        raise vlib.MachineryError("binding self-test failed: a corrupted submission flag (line %d) gave %s %s at line %s" %
+                                  (i_sub + 1, vs["status"], vs["inv"], vs["line"]))
+    out.append("submission flag of line %d corrupted: TSubmittedValid violated at line %d" % (i_sub + 1, vs["line"]))
+    if vd["status"] == "accepted" and not vd["unexplained"]:
+        raise vlib.MachineryError("binding self-test failed: a trace with event %d dropped was accepted" % (i_drop + 1))
+    out.append("event %d dropped: no step explains line %s" % (i_drop + 1, (vd["unexplained"] or [vd["line"]])[0]))
+    return "; ".join(out)
+
+
 def run(tier, seed):
     t0 = time.time()
     T = _tier(tier)
     verdict = vlib.Verdict(PROP)
     cov = {"configs": [], "attack_traces": 0, "divergences": 0, "attack_steps_refused": 0}
     binp = vlib.go_build(DRIVER)
-    wd = os.path.join(vlib.WORK, PROP)
+    wd = os.path.join(os.path.dirname(vlib.BINDIR), PROP)   # .work/C05; .work/alt-<tag>/C05 for a VERIF_REPO trial
     os.makedirs(wd, exist_ok=True)
     rng = random.Random(seed)
     states = transitions = 0
@@ -228,13 +498,17 @@ def run(tier, seed):
                      ["-roles", "contribution"] if r > 1 else [])
         account(res)
 
-    # 5. the harness's own random executions (all committee sizes, all roles, one to three roots), monitors only
-    outr = os.path.join(wd, "random_result.json")
-    vlib.run_driver(binp, ["-mode", "random", "-out", outr, "-seed", str(seed), "-runs", str(T["random_runs"])], timeout=3000)
-    res = json.load(open(outr))
-    _collect(res, verdict, "random:seed=%d,runs=%d" % (seed, T["random_runs"]))
-    account(res)
-    cov["random_runs"] = res["behaviours"]
+    # 5. the harness's own seeded random executions on the real runners (all committee sizes, all roles, one to three
+    #    roots, <= f Byzantine members): the driver's monitors run on them AND every call is recorded and validated by
+    #    TLC against spec/PartialSigTrace.tla, which carries the C05 invariants on the recorded states
+    rec = _record_and_validate(binp, wd, seed, T["record_runs"], T["record_shards"], algo, verdict)
+    account(rec["result"])
+    cov["random_runs"] = rec["result"]["behaviours"]
+    cov["recorded"] = rec["cov"]
+    cov["divergences"] += len(rec["cov"]["trace_divergences"])
+    transitions += rec["transitions"]
+    if rec["sample"]:
+        samples.append(rec["sample"])
 
     rc = verdict.report()
     if cov["divergences"] and rc == 0:
@@ -246,7 +520,8 @@ def run(tier, seed):
         "evaluations": steps,
         "distinct_nontrivial": nontrivial,
         "rule": "behaviours = BFS-tree leaves of the dumped N=4 state graphs (seeded sample in quick) + seeded non-tree edges + "
-                "-simulate runs for 7/10/13 operators and 3 roots + attack traces on every role + seeded random executions; "
+                "-simulate runs for 7/10/13 operators and 3 roots + attack traces on every role + seeded random executions "
+                "recorded from the real runners and accepted by PartialSigTrace (detail.recorded); "
                 "non-trivial = at least one wrong partial signature was handed to the real runner",
         "exhaustive": exhaustive,
         "detail": cov,
@@ -263,12 +538,21 @@ def run(tier, seed):
 def replay(path):
     binp = vlib.go_build(DRIVER)
     verdict = vlib.Verdict(PROP)
-    wd = os.path.join(vlib.WORK, PROP)
+    wd = os.path.join(os.path.dirname(vlib.BINDIR), PROP)   # .work/C05; .work/alt-<tag>/C05 for a VERIF_REPO trial
     os.makedirs(wd, exist_ok=True)
     outp = os.path.join(wd, "replay_single.json")
     if path.startswith("random:"):
         kv = dict(x.split("=") for x in path[len("random:"):].split(","))
         vlib.run_driver(binp, ["-mode", "random", "-out", outp, "-seed", kv["seed"], "-runs", kv["runs"]])
+    elif path.startswith("record:") or (os.path.exists(path) and '"event"' in open(path).readline()):
+        # recorded executions: run them again on the real runners (same seed / the saved slice), monitors and TLC
+        algo = os.environ.get("VERIF_C05_ALGO", "code")
+        if path.startswith("record:"):
+            kv = dict(x.split("=") for x in path[len("record:"):].split(","))
+            _record_and_validate(binp, wd, int(kv["seed"]), int(kv["runs"]), int(kv.get("shards", "1")), algo, verdict, selftest=False)
+        else:
+            _record_and_validate(binp, wd, 0, 1, 1, algo, verdict, mode_args=["-mode", "retrace", "-in", path], selftest=False, label=path)
+        return verdict.report()
     else:
         f, _, params = path.partition("#")
         kv = dict(x.split("=") for x in params.split(",")) if params else {"n": "4", "r": "1"}
